@@ -102,3 +102,60 @@ def require(chk, P, types, meaning):
         ok, why, seen = structural(P, ty)
         chk.require(ok, "EQ", "EQ:%s:structural-equality" % ty, "derived PartialEq over %s; %s; compared in %s" % (sorted(seen), meaning, [u.split("::")[-2] if u.endswith("}") else u.split("::")[-1] for u in users]),
                     "%s — %s no longer holds" % (why, meaning))
+
+
+# ---- CLONE: `x.clone()` on crate-local types yields an equal value ---------------------------------
+def clone_body(P, ty):
+    for n, b in P.f.bodies.items():
+        m = re.match(r"^<(.+) as std::clone::Clone>::clone$", n)
+        if m and m.group(1).split("<")[0] == ty:
+            return b
+    return None
+
+
+def cloned_types(P):
+    out = {}
+    for b in P.f.all_bodies:
+        if b.j.get("def_exp"):
+            continue
+        for bb, t in b.calls():
+            nm, f = callee_name(t)
+            if not (nm.endswith("::clone") or nm.endswith("::cloned") or nm.endswith("::to_vec") or nm.endswith("::to_owned")):
+                continue
+            for ty in _self_types(f):
+                for base in re.findall(r"[A-Za-z_][A-Za-z0-9_]*(?:::[A-Za-z_][A-Za-z0-9_]*)*", ty):
+                    if base in P.f.adts:
+                        out.setdefault(base, set()).add(b.name)
+    return dict((k, sorted(v)) for k, v in out.items())
+
+
+def derived_clone(P, ty, seen=None):
+    seen = set() if seen is None else seen
+    if ty in seen:
+        return True, "", seen
+    seen.add(ty)
+    b = clone_body(P, ty)
+    if b is None:
+        return False, "%s has no Clone impl in the crate" % ty, seen
+    if b.j.get("def_exp_kind") != "#[derive(Clone)]":
+        return False, "`clone()` on %s is a hand-written impl (%s:%d)" % (ty, b.file, b.line), seen
+    for bb, t in b.calls():
+        nm, f = callee_name(t)
+        if nm.endswith("::clone"):
+            for sub in _self_types(f):
+                for base in re.findall(r"[A-Za-z_][A-Za-z0-9_]*(?:::[A-Za-z_][A-Za-z0-9_]*)*", sub):
+                    if base in P.f.adts and base not in seen:
+                        ok2, why, _ = derived_clone(P, base, seen)
+                        if not ok2:
+                            return False, why, seen
+    return True, "", seen
+
+
+def require_clone(chk, P, types, meaning):
+    cl = cloned_types(P)
+    for ty in types:
+        users = cl.get(ty)
+        if not chk.anchor("clone() of %s is used" % ty, bool(users)):
+            continue
+        ok, why, seen = derived_clone(P, ty)
+        chk.require(ok, "EQ", "CLONE:%s:derived" % ty, "derived Clone over %s; %s" % (sorted(seen), meaning), "%s — %s no longer holds" % (why, meaning))
